@@ -42,6 +42,7 @@ RULE = (
 )
 ASSUMPTIONS = [
     "-c 0 (means 'no limit' today), -E and --format are not generated; grouped records are not part of the generated inputs",
+    "a name repeated in -F is not generated (the rewriter then builds a descriptor that lists the field twice, which is outside the descriptor grammar)",
     "truncated sources are plain streams cut at a random byte; compressed sources are whole, empty or garbage (compressed-prefix semantics is C04's subject)",
     "inputs avoid the value classes owned by C01 known findings (IPv6 below 2**32, scoped addresses, dynamic holding a path); a case whose "
     "source bytes do not decode (independent codec) to the records written is skipped and counted",
@@ -67,7 +68,7 @@ SUB_MODE_CYCLE = SUB_MODES + ("list",)
 REPO = os.environ.get("VERIF_REPO", "/repo")
 RDUMP = "/venv/bin/rdump"
 
-B_SCALARS = ["string", "wstring", "varint", "uint16", "uint32", "unix_file_mode", "float", "boolean", "datetime", "bytes",
+B_SCALARS = ["string", "wstring", "varint", "filesize", "uint16", "uint32", "unix_file_mode", "float", "boolean", "datetime", "bytes",
              "digest", "net.ipnetwork", "uri", "path"]
 B_TYPES = B_SCALARS + [t + "[]" for t in B_SCALARS]
 POSIX_HOSTILE = [("posix", "/sur\udcff\udc80"), ("posix", "a\x00b"), ("posix", "\n"), ("pure-posix", "/x/y"), ("str", "/plain/str"),
@@ -346,8 +347,7 @@ def make_options(rng, fam, sources, descs, total, allow_unicode=True):
     extra = ["nope", "_source", "_generated", "ts", "ts_description"]
     if rng.random() < 0.4:
         f = [rng.choice(names + extra) if rng.random() < 0.25 else rng.choice(names) for _ in range(rng.randint(1, 4))]
-        if rng.random() > 0.12:
-            f = list(dict.fromkeys(f))
+        f = list(dict.fromkeys(f))  # a name repeated in -F is outside the generated class (see ASSUMPTIONS)
         opts["fields"] = f
         argv += ["-F", ",".join(f)]
     if rng.random() < 0.3:
@@ -482,7 +482,7 @@ def compare_csv(ctx, texts, entries, fields, exclude, what, detail):
                               detail=dict(detail, part=pi, row=ri, got=row, expected_records=len(entries)))
                 return False
             e = entries[i]
-            sel = tm.select(e.names(), fields, exclude)
+            sel, cells = M.csv_cells(e, fields, exclude, _empty_digest)
             k = e.type_key()
             if k != last:
                 if row != list(sel):
@@ -491,10 +491,9 @@ def compare_csv(ctx, texts, entries, fields, exclude, what, detail):
                     return False
                 last = k
                 continue
-            cells = [tm.cell_text(e.vals.get(n)) for n in sel]
-            if row != cells:
+            if len(row) != len(cells) or any(g not in alts for g, alts in zip(row, cells)):
                 ctx.violation(None, "%s: CSV rows differ from the reference pipeline" % what,
-                              detail=dict(detail, part=pi, row=ri, record=i, got=row, expected=cells))
+                              detail=dict(detail, part=pi, row=ri, record=i, got=row, expected=[sorted(a) for a in cells]))
                 return False
             i += 1
     if i != len(entries):
@@ -504,39 +503,29 @@ def compare_csv(ctx, texts, entries, fields, exclude, what, detail):
     return True
 
 
-def line_mismatch(text, entries, fields, exclude, verbose):
-    """-> None when the text is exactly the expected blocks, else a description of the first difference."""
-    pos = 0
-    for i, e in enumerate(entries):
-        pos, why = tm.match_line_block(text, pos, i + 1, M.line_items(e, fields, exclude, verbose), True)
-        if why:
-            return {"block": i + 1, "why": why}
-    if text[pos:].strip():
-        return {"why": "output continues after the last expected record", "rest": text[pos : pos + 200]}
-    return None
+def _empty_digest():
+    from flow.record.fieldtypes import digest
+
+    return digest()
 
 
-def compare_line(ctx, text, entries, fields, exclude, verbose, what, detail, also_unrestricted=False):
-    bad = line_mismatch(text, entries, fields, exclude, verbose)
-    if bad and also_unrestricted and (fields or exclude):
-        # rdump does not forward -F/-X to the writer in this mode today (only the record is projected); both renderings
-        # show the same records
-        if line_mismatch(text, entries, None, None, verbose) is None:
-            ctx.event("line_verbose_rendered_unrestricted")
-            return True
+def compare_line(ctx, text, entries, fields, exclude, verbose, what, detail):
+    bad = M.match_line_blocks(text, entries, fields, exclude, verbose, _empty_digest)
     if bad:
-        ctx.violation(None, "%s: line output differs from the reference pipeline" % what, detail=dict(detail, **bad))
+        key = None
+        if (fields or exclude) and verbose and M.match_line_blocks(text, entries, None, None, verbose, _empty_digest) is None:
+            # mechanism: the mode URI already carries a query ('line://?verbose=true') and the -F/-X selection is not
+            # appended to it, so the writer renders every field of the projected record
+            key = "mode-uri-query-precedence"
+        ctx.violation(key, "%s: line output differs from the reference pipeline" % what, detail=dict(detail, **bad))
         return False
     return True
 
 
 def compare_textlines(ctx, text, entries, what, detail):
-    exp = "".join(M.text_line(e) + "\n" for e in entries)
-    if text != exp:
-        n = next((i for i, (a, b) in enumerate(zip(text, exp)) if a != b), min(len(text), len(exp)))
-        ctx.violation(None, "%s: text output differs from the reference pipeline" % what,
-                      detail=dict(detail, at=n, got=text[max(0, n - 80) : n + 120], expected=exp[max(0, n - 80) : n + 120],
-                                  got_len=len(text), expected_len=len(exp)))
+    bad = M.match_text_lines(text, entries, _empty_digest)
+    if bad:
+        ctx.violation(None, "%s: text output differs from the reference pipeline" % what, detail=dict(detail, **bad))
         return False
     return True
 
@@ -754,7 +743,7 @@ def _run_sub(ctx, case, rng, d, sources, argv_src, argv_opts, opts, sliced, fina
     if mode == "csv":
         ok = compare_csv(ctx, [so], final, fields, exclude, what, detail)
     elif mode in ("line", "line-verbose"):
-        ok = compare_line(ctx, so, final, fields, exclude, mode == "line-verbose", what, detail, also_unrestricted=(mode == "line-verbose"))
+        ok = compare_line(ctx, so, final, fields, exclude, mode == "line-verbose", what, detail)
     elif mode == "text":
         ok = compare_textlines(ctx, so, final, what, detail)
     elif mode in ("json", "jsonlines"):
